@@ -1,3 +1,4 @@
+import AndaVerif.Gen.NexusOrderFacts
 import AndaVerif.Proofs.TxPlan
 /-
 `Transaction::commit` and `kml::execute` under the order generated from the source:
@@ -15,7 +16,7 @@ def commitClosed (s : Store) (tx : Tx) (time : Nat) : Store × Outcome :=
   if tx.dry then (discardShells s tx.shells, .dryRun (changeRecords tx.staged))
   else
     match checkKeys s tx.staged [] with
-    | .error e => (s, .refusedCheck e)
+    | .error e => (discardShells s tx.shells, .refusedCheck e)
     | .ok _ =>
         match writeLoop tx.seq s tx.staged [] with
         | (s', w, some e) => (s', .refusedWrite e w)
@@ -25,7 +26,8 @@ def commitClosed (s : Store) (tx : Tx) (time : Nat) : Store × Outcome :=
              .done tx.seq (if w.isEmpty then .noEffect else .committed) w)
 
 theorem commit_eq (s : Store) (tx : Tx) (time : Nat) :
-    commitWith commitOrder s tx time = commitClosed s tx time := by
+    commitWith commitOrder checkFailureDiscardsShells s tx time = commitClosed s tx time := by
+  rw [gen_check_failure_discards]
   unfold commitWith commitClosed
   split
   · rfl
@@ -45,7 +47,9 @@ theorem writeOne_meta {s s' : Store} {seq : Nat} {i : Id} {x : Staged} (h : writ
   unfold writeOne at h
   split at h
   · cases h
-  · cases h; exact ⟨rfl, rfl, rfl⟩
+  · split at h
+    · cases h
+    · cases h; exact ⟨rfl, rfl, rfl⟩
 
 theorem writeLoop_meta (seq : Nat) (s : Store) (m : List (Id × Staged)) (acc : List Change) :
     (writeLoop seq s m acc).1.journal = s.journal ∧ (writeLoop seq s m acc).1.seq = s.seq ∧
@@ -82,7 +86,8 @@ def committedStore (s' : Store) (tx : Tx) (time : Nat) (w : List Change) : Store
 /-- the four ways a commit ends -/
 inductive CommitCase (s : Store) (tx : Tx) (time : Nat) (r : Store × Outcome) : Prop where
   | dry (hd : tx.dry = true) (hr : r = (discardShells s tx.shells, .dryRun (changeRecords tx.staged)))
-  | check (hd : tx.dry = false) (e : Err) (hk : checkKeys s tx.staged [] = .error e) (hr : r = (s, .refusedCheck e))
+  | check (hd : tx.dry = false) (e : Err) (hk : checkKeys s tx.staged [] = .error e)
+      (hr : r = (discardShells s tx.shells, .refusedCheck e))
   | write (hd : tx.dry = false) (u : Unit) (hk : checkKeys s tx.staged [] = .ok u) (s' : Store) (w : List Change) (e : Err)
       (hw : writeLoop tx.seq s tx.staged [] = (s', w, some e)) (hr : r = (s', .refusedWrite e w))
   | done (hd : tx.dry = false) (u : Unit) (hk : checkKeys s tx.staged [] = .ok u) (s' : Store) (w : List Change)
@@ -107,77 +112,40 @@ theorem commitClosed_cases (s : Store) (tx : Tx) (time : Nat) : CommitCase s tx 
 inductive ExecCase (s : Store) (st : Stmt) (r : Store × Outcome) : Prop where
   | plan (e : Err) (he : (planned s st).err = some e)
       (hr : r = (discardShells (planned s st).s (planned s st).tx.shells, .refusedPlan e))
-  | check (he : (planned s st).err = none) (e : Err) (s' : Store)
-      (hc : CommitCase (planned s st).s (planned s st).tx st.time (s', .refusedCheck e))
-      (hr : r = ((if commitErrorCleansUp then discardShells s' (planned s st).tx.shells else s'), .refusedCheck e))
-  | other (he : (planned s st).err = none)
-      (hc : CommitCase (planned s st).s (planned s st).tx st.time r) (hne : ∀ e, r.2 ≠ .refusedCheck e)
+  | commit (he : (planned s st).err = none)
+      (hc : CommitCase (planned s st).s (planned s st).tx st.time r)
 
 theorem exec_cases (s : Store) (st : Stmt) : ExecCase s st (exec s st) := by
   have hab : abortOnPlanError = true := by decide
   simp only [exec, execWith, commit_eq, hab, if_true]
   change ExecCase s st (match (planned s st).err with
     | some e => (discardShells (planned s st).s (planned s st).tx.shells, Outcome.refusedPlan e)
-    | none => match commitClosed (planned s st).s (planned s st).tx st.time with
-      | (s', .refusedCheck e) => ((if commitErrorCleansUp then discardShells s' (planned s st).tx.shells else s'), .refusedCheck e)
-      | r => r)
+    | none => commitClosed (planned s st).s (planned s st).tx st.time)
   cases he : (planned s st).err with
   | some e => exact .plan e he rfl
-  | none =>
-      simp only []
-      have hc := commitClosed_cases (planned s st).s (planned s st).tx st.time
-      rcases hcc : commitClosed (planned s st).s (planned s st).tx st.time with ⟨s', o⟩
-      rw [hcc] at hc
-      cases o with
-      | refusedCheck e => exact .check he e s' hc rfl
-      | refusedPlan e => exact .other he hc (by intro e'; simp)
-      | refusedWrite e w => exact .other he hc (by intro e'; simp)
-      | dryRun c => exact .other he hc (by intro e'; simp)
-      | done a b c => exact .other he hc (by intro e'; simp)
+  | none => exact .commit he (commitClosed_cases _ _ _)
 
 /-! ## Refusals and dry runs -/
 
-/-- everything a refusal while planning leaves: the Space sequence moved, nothing else -/
-theorem exec_refusedPlan {s : Store} (hwf : WF s) (st : Stmt) (e : Err) (h : (exec s st).2 = .refusedPlan e) :
+/-- everything a refusal — while planning or by a pre-commit check — leaves: the Space sequence
+moved, nothing else -/
+theorem exec_refused {s : Store} (hwf : WF s) (st : Stmt) (e : Err)
+    (h : (exec s st).2 = .refusedPlan e ∨ (exec s st).2 = .refusedCheck e) :
     (∀ i, (exec s st).1.elems i = s.elems i) ∧ (exec s st).1.journal = s.journal ∧
     (exec s st).1.vlog = s.vlog ∧ (exec s st).1.seq = s.seq + 1 := by
   have hinv := planned_inv hwf st
-  rcases exec_cases s st with ⟨e', he, hr⟩ | ⟨he, e', s', hc, hr⟩ | ⟨he, hc, hne⟩
-  · rw [hr]
-    exact ⟨fun i => hinv.discard_raw i, hinv.journal, hinv.vlog, hinv.seq⟩
-  · rw [hr] at h; simp at h
-  · exfalso
-    cases hc with
+  have quiet : (∀ i, (discardShells (planned s st).s (planned s st).tx.shells).elems i = s.elems i) ∧
+      (discardShells (planned s st).s (planned s st).tx.shells).journal = s.journal ∧
+      (discardShells (planned s st).s (planned s st).tx.shells).vlog = s.vlog ∧
+      (discardShells (planned s st).s (planned s st).tx.shells).seq = s.seq + 1 :=
+    ⟨fun i => hinv.discard_raw i, hinv.journal, hinv.vlog, hinv.seq⟩
+  rcases exec_cases s st with ⟨e', he, hr⟩ | ⟨he, hc⟩
+  · rw [hr]; exact quiet
+  · cases hc with
     | dry hd hr => rw [hr] at h; simp at h
-    | check hd e' hk hr => rw [hr] at h; simp at h
+    | check hd e' hk hr => rw [hr]; exact quiet
     | write hd u hk s' w e' hw hr => rw [hr] at h; simp at h
     | done hd u hk s' w hw hr => rw [hr] at h; simp at h
-
-
-/-- a refusal by a pre-commit check: no element any read can reach in a non-`pending` state, no
-journal row, no version row changed -/
-theorem exec_refusedCheck {s : Store} (hwf : WF s) (st : Stmt) (e : Err) (h : (exec s st).2 = .refusedCheck e) :
-    (∀ i, visible ((exec s st).1.elems i) = visible (s.elems i)) ∧ (exec s st).1.journal = s.journal ∧
-    (exec s st).1.vlog = s.vlog ∧ (exec s st).1.seq = s.seq + 1 := by
-  have hinv := planned_inv hwf st
-  rcases exec_cases s st with ⟨e', he, hr⟩ | ⟨he, e', s', hc, hr⟩ | ⟨he, hc, hne⟩
-  · rw [hr] at h; simp at h
-  · have hs' : s' = (planned s st).s := by
-      cases hc with
-      | dry hd hr => simp at hr
-      | check hd e' hk hr => simp at hr; exact hr.1
-      | write hd u hk s' w e' hw hr => simp at hr
-      | done hd u hk s' w hw hr => simp at hr
-    subst hs'
-    rw [hr]
-    cases commitErrorCleansUp with
-    | true =>
-        simp only [if_true]
-        exact ⟨fun i => by rw [hinv.discard_raw i], hinv.journal, hinv.vlog, hinv.seq⟩
-    | false =>
-        simp only [Bool.false_eq_true, if_false]
-        exact ⟨fun i => hinv.visible_same i, hinv.journal, hinv.vlog, hinv.seq⟩
-  · exact absurd h (hne e)
 
 /-- a dry run: the Space sequence moved, nothing else (the raw collections included) -/
 theorem exec_dry {s : Store} (hwf : WF s) (st : Stmt) (hd : st.dry = true) :
@@ -186,15 +154,9 @@ theorem exec_dry {s : Store} (hwf : WF s) (st : Stmt) (hd : st.dry = true) :
     ((∃ e, (exec s st).2 = .refusedPlan e) ∨ ∃ cs, (exec s st).2 = .dryRun cs) := by
   have hinv := planned_inv hwf st
   have hdry : (planned s st).tx.dry = true := hinv.txdry.trans hd
-  rcases exec_cases s st with ⟨e', he, hr⟩ | ⟨he, e', s', hc, hr⟩ | ⟨he, hc, hne⟩
+  rcases exec_cases s st with ⟨e', he, hr⟩ | ⟨he, hc⟩
   · rw [hr]
     exact ⟨fun i => hinv.discard_raw i, hinv.journal, hinv.vlog, hinv.seq, .inl ⟨e', rfl⟩⟩
-  · exfalso
-    cases hc with
-    | dry hd hr => simp at hr
-    | check hd' e' hk hr => rw [hdry] at hd'; cases hd'
-    | write hd' u hk s' w e' hw hr => simp at hr
-    | done hd' u hk s' w hw hr => simp at hr
   · cases hc with
     | dry hd' hr =>
         rw [hr]
@@ -202,10 +164,6 @@ theorem exec_dry {s : Store} (hwf : WF s) (st : Stmt) (hd : st.dry = true) :
     | check hd' e' hk hr => rw [hdry] at hd'; cases hd'
     | write hd' u hk s' w e' hw hr => rw [hdry] at hd'; cases hd'
     | done hd' u hk s' w hw hr => rw [hdry] at hd'; cases hd'
-
-theorem discardShells_meta (s : Store) (l : List Id) :
-    (discardShells s l).journal = s.journal ∧ (discardShells s l).seq = s.seq ∧ (discardShells s l).next = s.next ∧
-    (discardShells s l).vlog = s.vlog := ⟨rfl, rfl, rfl, rfl⟩
 
 /-- every statement, whatever its outcome, takes exactly the next Space sequence, and only a
 commit adds a journal row — carrying that sequence -/
@@ -216,10 +174,8 @@ theorem exec_seq_journal {s : Store} (hwf : WF s) (st : Stmt) :
         (exec s st).1.journal = { seq := s.seq + 1, status := if w.isEmpty then .noEffect else .committed,
                                   changes := w, time := st.time } :: s.journal) := by
   have hinv := planned_inv hwf st
-  rcases exec_cases s st with ⟨e', he, hr⟩ | ⟨he, e', s', hc, hr⟩ | ⟨he, hc, hne⟩
+  rcases exec_cases s st with ⟨e', he, hr⟩ | ⟨he, hc⟩
   · rw [hr]; exact ⟨hinv.seq, .inl hinv.journal⟩
-  · have := exec_refusedCheck hwf st e' (by rw [hr])
-    exact ⟨this.2.2.2, .inl this.2.1⟩
   · cases hc with
     | dry hd' hr => rw [hr]; exact ⟨hinv.seq, .inl hinv.journal⟩
     | check hd' e' hk hr => rw [hr]; exact ⟨hinv.seq, .inl hinv.journal⟩
